@@ -15,6 +15,19 @@ TX = c.LW + "internal::tx::"
 SEL = c.LW + "internal::selection::"
 
 
+def _through(f, o, depth=0):
+    """producers of o, looking through accessor calls (tx.kernels()[0], deref, index) to the object they were taken from"""
+    pr = set(vf.producers(f, o))
+    if depth > 6:
+        return pr
+    for x in list(pr):
+        if x[0] == "call" and x[1].endswith(("Transaction::kernels", "Index::index", "Deref::deref", "::as_slice", "::first", "::get")):
+            t = f.bbs[x[2]]["t"]
+            if t["a"]:
+                pr |= _through(f, t["a"][0], depth + 1)
+    return pr
+
+
 def run(ctx):
     run = ctx.run
     R1 = "C02.R1"
@@ -26,6 +39,29 @@ def run(ctx):
     c.require_pass(ctx, R1, ft, "grin_core::core::transaction::Transaction::validate", sink, "self.tx = final_tx requires tx.validate Ok")
     c.require_pass(ctx, R1, ft, SLATE + "check_fees", ("okret",), "Ok return requires check_fees Ok")
     c.require_pass(ctx, R1, ft, "grin_core::core::transaction::Transaction::validate", ("okret",), "Ok return requires tx.validate Ok")
+    # what is verified and validated is the transaction that is then stored (the one whose kernel carries the final
+    # excess and signature), and the signature set into that kernel is the one handed in
+    ftf = ctx.fn(ft)
+    if ftf:
+        rk = lambda pr: {x for x in pr if x[0] == "call" and x[1].endswith("Transaction::replace_kernel")}
+        stored = set()
+        for b, st in vf.field_assignments(ftf, c.LW + "slate::Slate", "tx"):
+            if st["r"]["k"] == "agg" and st["r"]["f"]:
+                stored |= rk(vf.producers(ftf, st["r"]["f"][0][1]))
+            elif st["r"]["k"] == "use":
+                stored |= rk(vf.producers(ftf, st["r"]["o"]))
+        for callee, what in (("grin_core::core::transaction::Transaction::validate", "validate"), ("grin_core::core::transaction::TxKernel::verify", "kernel verify")):
+            for b, t in cfg.find_calls(ftf, callee):
+                got = rk(_through(ftf, t["a"][0]))
+                h = bool(stored) and bool(got & stored)
+                run.instance(R1, {"fn": "finalize_transaction", "obligation": "%s is applied to the transaction that gets stored (result of replace_kernel)" % what}, held=h)
+                if not h:
+                    run.finding(Finding(R1, ft, "%s is not applied to the transaction that is stored in the slate" % what, site=c.site_of(ftf, b)))
+        sig_asg = vf.field_assignments(ftf, "grin_core::core::transaction::TxKernel", "excess_sig")
+        h = bool(sig_asg) and all(any(x[0] == "arg" and x[1] == 3 for x in (vf.producers(ftf, st["r"]["o"]) if st["r"]["k"] == "use" else set()) | vf.get_flow(ftf).of_rvalue(st["r"])) for _b, st in sig_asg)
+        run.instance(R1, {"fn": "finalize_transaction", "obligation": "kernel.excess_sig := the final signature parameter"}, held=h)
+        if not h:
+            run.finding(Finding(R1, ft, "the kernel's signature is not the final signature handed to finalize_transaction", site=ftf.loc()))
     fs = SLATE + "finalize_signature"
     c.require_pass(ctx, R1, fs, SLATE + "verify_part_sigs", ("okret",), "Ok(final_sig) requires verify_part_sigs Ok")
     c.require_pass(ctx, R1, fs, "grin_core::libtx::aggsig::verify_completed_sig", ("okret",), "Ok(final_sig) requires verify_completed_sig Ok")
